@@ -34,7 +34,7 @@ Qed.
 Lemma wf_fields_pack l : Forall (fun f => wf_sf f = true) l -> wf_fields (pack l) = true.
 Proof. intros H. apply wf_fields_forall. now rewrite unpack_pack. Qed.
 
-Lemma exported_app n sfx : exported n = true -> exported (n ++ sfx) = true.
+Lemma exported_app n sfx : xexported n = true -> xexported (n ++ sfx) = true.
 Proof. destruct n; simpl; [discriminate | auto]. Qed.
 
 Lemma assignable_refl t : assignable t t = true.
@@ -47,15 +47,19 @@ Definition nilv (f : sfield) : tval := (sf_ty f, VNil).
 Definition nil_fvs (lf : list sfield) : list fvt := map (fun f => (f, nilv f)) lf.
 
 (* ---------- (A) Mangle keeps the layer well-formed ---------- *)
-Lemma title_upper c r : is_upper c = true -> title (c :: r) = c :: r.
+Lemma title_upper c r : is_upper c || is_upper_x c = true -> title (c :: r) = c :: r.
 Proof. intros H. unfold title, to_upper.
   assert (is_lower c = false) as ->; [| reflexivity].
-  unfold is_upper, is_lower in *. apply andb_true_iff in H as [H1 H2].
-  apply N.leb_le in H1, H2. apply andb_false_iff. left. apply N.leb_gt. lia.
+  apply orb_true_iff in H as [H | H].
+  - unfold is_upper, is_lower in *. apply andb_true_iff in H as [H1 H2].
+    apply N.leb_le in H1, H2. apply andb_false_iff. left. apply N.leb_gt. lia.
+  - unfold is_upper_x, upper_x in H. simpl in H.
+    repeat (apply orb_true_iff in H as [H | H]; [apply N.eqb_eq in H; subst c; reflexivity |]).
+    discriminate.
 Qed.
 
-Lemma exported_upper_camel names : names <> [] -> Forall (fun n => exported n = true) names ->
-  exported (encode_upper_camel names) = true.
+Lemma exported_upper_camel names : names <> [] -> Forall (fun n => xexported n = true) names ->
+  xexported (encode_upper_camel names) = true.
 Proof.
   intros Hne Hall. destruct names as [|n r]; [congruence|].
   inversion Hall as [|? ? Hn _]; subst. unfold encode_upper_camel. simpl.
@@ -79,13 +83,13 @@ Lemma fl_wf :
   (forall t, forall names tgs path full newtag outs,
       wf_ty full = true ->
       (t = full \/ (full = TPtr t /\ match t with TPtr _ => False | _ => True end)) ->
-      Forall (fun n => exported n = true) names ->
+      Forall (fun n => xexported n = true) names ->
       (match t with TStruct _ _ => True | TPtr (TStruct _ _) => True | _ => names <> [] end) ->
       fl_ty tag 0 tenc names tgs path full newtag t = Ok outs ->
       Forall (fun f => wf_sf f = true) outs) /\
   (forall fs, forall names tgs path outs,
       wf_fields fs = true ->
-      Forall (fun n => exported n = true) names ->
+      Forall (fun n => xexported n = true) names ->
       fl_fields tag 0 tenc names tgs path fs = Ok outs ->
       Forall (fun f => wf_sf f = true) outs).
 Proof.
@@ -139,7 +143,7 @@ Qed.
 End FlattenWf.
 
 Lemma wf_sf_parts f : wf_sf f = true ->
-  exported (sf_name f) = true /\ wf_ty (sf_ty f) = true /\
+  xexported (sf_name f) = true /\ wf_ty (sf_ty f) = true /\
   (if sf_anon f then is_struct_ptr (sf_ty f) else true) = true.
 Proof.
   unfold wf_sf. intros H. apply andb_true_iff in H as [H H3]. apply andb_true_iff in H as [H1 H2]. auto.
@@ -268,7 +272,7 @@ Proof.
       destruct e as [| | | | | |fs nm| | |]; try discriminate. simpl in H. inversion H; subst.
       simpl in Wt. apply wf_fields_forall in Wt.
       clear - Wt. induction Wt as [|x l Hx _ IH]; simpl; [constructor|].
-      destruct (exported (sf_name x)); [constructor; assumption | assumption].
+      destruct (xexported (sf_name x)); [constructor; assumption | assumption].
     + inversion H; subst. split; [repeat constructor; assumption|].
       rewrite orb_false_r. intros F. repeat constructor. exact A.
   - (* set-slice *)
@@ -314,7 +318,7 @@ Proof. unfold assign_or_convert. simpl. now rewrite assignable_refl. Qed.
 
 Lemma pop_fields_cons n tg an t r vs :
   pop_fields (FCons n tg an t r) vs =
-  (a <- (if negb (exported n) then Err 4
+  (a <- (if negb (xexported n) then Err 4
          else if under_is_struct t then pop_ty t t vs
          else match vs with
               | [] => Panic 2
@@ -499,7 +503,7 @@ Proof.
     + destruct (sf_ty f) as [| |e| | | | | | |] eqn:T; simpl in Wa; try discriminate.
       destruct e as [| | | | | |fs nm| | |]; try discriminate. simpl in H. inversion H; subst. clear H.
       simpl in Wt.
-      assert (Fl : filter (fun f0 => exported (sf_name f0)) (unpack fs) = unpack fs).
+      assert (Fl : filter (fun f0 => xexported (sf_name f0)) (unpack fs) = unpack fs).
       { pose proof (proj1 (wf_fields_forall fs) Wt) as Fa. clear - Fa.
         induction Fa as [|x l Hx _ IH]; simpl; [reflexivity|].
         rewrite (proj1 (wf_sf_parts x Hx)). now rewrite IH. }
@@ -719,7 +723,7 @@ Qed.
 
 Lemma assemble_cons o ofs f v r :
   assemble (o :: ofs) ((f, v) :: r) =
-  (x <- (if negb (exported (sf_name f)) then Ok (zero (sf_ty o))
+  (x <- (if negb (xexported (sf_name f)) then Ok (zero (sf_ty o))
          else if negb (convertible (fst v) (sf_ty o)) then Err 20
          else (c <- convert v (sf_ty o) ;; set_into (sf_ty o) c)) ;;
    rest <- assemble ofs r ;; Ok (x :: rest)).
